@@ -38,7 +38,7 @@ def cases(tier, seed):
     out = []
     for scn in scen.directed(tier):
         out.append(dict(id=scn['id'], kind='scn', scn=scn))
-    nrand = 4000 if tier == 'thorough' else 260
+    nrand = 24000 if tier == 'thorough' else 260
     block = 20
     for idx in range(0, nrand, block):
         out.append(dict(id='rand-%d' % idx, kind='rand', seed=seed * 9176 + idx, count=block))
